@@ -16,7 +16,7 @@ import (
 
 func init() {
 	register("C01", runC01, propMeta{
-		Explanation: "(E7) every return of ExpressionAtom.Evaluate hands on the first result of DataContext.GetValue or of the child node's Evaluate unchanged: an operand reaches the operators as it was read. Decides, table row by table row, which operation is applied to which operands at which width; it does not compute results. (G1) precedence and associativity from the generated parser: in mathExpression and expression every binary alternative is (precedence predicate k, operator rule, recursive call with k+1) — left associative —, k(mul/div) > k(plus/minus) > 0, k(comparison) > k(logical) > 0, one logical alternative whose operator rule accepts exactly && and ||, the Sempred tables repeat the same k's, the primary alternatives are mathExpression(0) / [!] atom / [!] ( expression(0) ), and mathExpression can reach expression only through an atom's call arguments, so arithmetic binds tighter than comparison; thorough tier: the serialized ATN is decoded and its precedence-predicate transitions compared with the same table; (G2) the listener stores each operator's text into the field of the same name on the enclosing node and Accept* fills Left before Right, so the first child is the left operand; (E1) MathExpression.Evaluate dispatches + - * / (exhaustive over the two operator rules' tokens) to core.Add/Sub/Mul/Div(left value, right value); (E2) by kind-specialised constant propagation over all 15x15 kind pairs of each core function: the only non-error result is `a <op> b` with the function's own operator, left operand read from a and right from b with the accessor of their class, in int64 (signed or mixed), uint64 (both unsigned) or float64 (a float involved), string concatenation a then b for Add only, every other pair reaches only error returns, and every division is reached only over the non-zero edge of a test of b read with its own accessor; (E3) comparison: numberClass/TypeMap cover the 12 numeric kinds, compareNumbers by class pair compares integers as int64/uint64 (mixed signs by a sign test, then uint64) and reaches a float conversion only when a float is involved, its three results are <, ==, > of the same operands left-from-left right-from-right, the six comparison tokens map to eq, !eq, gt, lt, gt||eq, lt||eq, string comparison uses the six Go operators on .String() left-to-right, bool only == and !=, && and || evaluate .Bool() of both sides with the Go operator of the same spelling under a both-bool guard; (E4) `!` is applied last, to a value checked to be bool; (E5) @name/@desc/@sal/@id take the listener's per-rule fields, which are set from the rule header and reset at every rule entry, @id = ParseInt(name,10,64) or 0; literals use ParseInt(…,10,64), ParseFloat(…,64), ParseBool; (E6) every path of these evaluators that is not one of the rows returns a non-nil error. E3 closes with: every freshly computed boolean that becomes an expression's result is produced under an operator case that has evaluated both operands and established both kinds (no answer from one operand alone). In a well-typed arithmetic row no error return is reachable (Div: only over the zero edge of the divisor test). Not decided: numeric results, strconv/lexer behaviour, ANTLR's adaptive prediction engine (the tables it consumes are checked), stack depth. (G3) the node a handler of the expression level takes off the listener's stack is handed to its parent on every path, and every Accept* method of Expression / MathExpression / ExpressionAtom / MapVar stores its parameter itself: the tree evaluated is the tree parsed. Every value MathExpression.Evaluate returns is reflect.ValueOf of the first result of core.Add / Sub / Mul / Div, or the value of its only child (value-from-the-operator-table).",
+		Explanation: "(E7) every return of ExpressionAtom.Evaluate hands on the first result of DataContext.GetValue or of the child node's Evaluate unchanged: an operand reaches the operators as it was read. Decides, table row by table row, which operation is applied to which operands at which width; it does not compute results. (G1) precedence and associativity from the generated parser: in mathExpression and expression every binary alternative is (precedence predicate k, operator rule, recursive call with k+1) — left associative —, k(mul/div) > k(plus/minus) > 0, k(comparison) > k(logical) > 0, one logical alternative whose operator rule accepts exactly && and ||, the Sempred tables repeat the same k's, the primary alternatives are mathExpression(0) / [!] atom / [!] ( expression(0) ), and mathExpression can reach expression only through an atom's call arguments, so arithmetic binds tighter than comparison; thorough tier: the serialized ATN is decoded and its precedence-predicate transitions compared with the same table; (G2) the listener stores each operator's text into the field of the same name on the enclosing node and Accept* fills Left before Right, so the first child is the left operand; (E1) MathExpression.Evaluate dispatches + - * / (exhaustive over the two operator rules' tokens) to core.Add/Sub/Mul/Div(left value, right value); (E2) by kind-specialised constant propagation over all 15x15 kind pairs of each core function: the only non-error result is `a <op> b` with the function's own operator, left operand read from a and right from b with the accessor of their class, in int64 (signed or mixed), uint64 (both unsigned) or float64 (a float involved), string concatenation a then b for Add only, every other pair reaches only error returns, and every division is reached only over the non-zero edge of a test of b read with its own accessor; (E3) comparison: numberClass/TypeMap cover the 12 numeric kinds, compareNumbers by class pair compares integers as int64/uint64 (mixed signs by a sign test, then uint64) and reaches a float conversion only when a float is involved, its three results are <, ==, > of the same operands left-from-left right-from-right, the six comparison tokens map to eq, !eq, gt, lt, gt||eq, lt||eq, string comparison uses the six Go operators on .String() left-to-right, bool only == and !=, && and || evaluate .Bool() of both sides with the Go operator of the same spelling under a both-bool guard; (E4) `!` is applied last, to a value checked to be bool; (E5) @name/@desc/@sal/@id take the listener's per-rule fields, which are set from the rule header and reset at every rule entry, @id = ParseInt(name,10,64) or 0; literals use ParseInt(…,10,64), ParseFloat(…,64), ParseBool; (E6) every path of these evaluators that is not one of the rows returns a non-nil error. E3 closes with: every freshly computed boolean that becomes an expression's result is produced under an operator case that has evaluated both operands and established both kinds (no answer from one operand alone). In a well-typed arithmetic row no error return is reachable (Div: only over the zero edge of the divisor test). Not decided: numeric results, strconv/lexer behaviour, ANTLR's adaptive prediction engine (the tables it consumes are checked), stack depth. (G3) the node a handler of the expression level takes off the listener's stack is handed to its parent on every path, and every Accept* method of Expression / MathExpression / ExpressionAtom / MapVar stores its parameter itself: the tree evaluated is the tree parsed. Every value MathExpression.Evaluate returns is reflect.ValueOf of the first result of core.Add / Sub / Mul / Div, or the value of its only child (value-from-the-operator-table). A literal handler hands on the result of its strconv call unconverted: a real literal is a float64 also when it has no fractional part.",
 		Assumptions: []string{"Go's int64/uint64/float64 operators (wrapping, truncating division)", "fmt.Sprintf(\"%s%s\") concatenates", "ANTLR interprets precedence predicates as documented"},
 		Trusted:     append([]string{"antlr4 Go runtime ATN deserializer (thorough tier only, decoding a constant table)"}, commonTrusted...),
 	})
@@ -1611,6 +1611,71 @@ func (c *Ctx) ruleE5(rule string) {
 			ok = okArgs
 		})
 		c.Check(rule, t[0], ok, f.Pos(), "%s must parse the literal's own text with strconv.%s(%s %s)", t[0], t[1], t[2], t[3])
+		// ... and hand on that very result: what goes into a constant (reflect.ValueOf) or to the
+		// holder's Accept method is the first result of the parse, of its own type -- a real literal
+		// is a float64 also when it has no fractional part
+		okOn, nOn, whyOn := true, 0, ""
+		fromParse := func(v ssa.Value) bool {
+			pvs := x.PossibleValues(v)
+			if len(pvs) == 0 {
+				return false
+			}
+			for _, pv := range pvs {
+				ex, isEx := pv.V.(*ssa.Extract)
+				if pv.V == nil || !isEx || ex.Index != 0 {
+					return false
+				}
+				pc, isCall := ex.Tuple.(*ssa.Call)
+				if !isCall || !fnIs(pc.Call.StaticCallee(), "strconv", "", t[1]) {
+					return false
+				}
+			}
+			return true
+		}
+		eachInstr(f, func(in ssa.Instruction) {
+			switch tt := in.(type) {
+			case *ssa.Store:
+				fa, isFA := tt.Addr.(*ssa.FieldAddr)
+				if !isFA || fieldOf(fa).Name() != "ConstantValue" {
+					return
+				}
+				nOn++
+				vo, isCall := x.Origin(tt.Val).(*ssa.Call)
+				if !isCall || !fnIs(vo.Call.StaticCallee(), "reflect", "", "ValueOf") {
+					okOn, whyOn = false, x.Describe(tt.Val)
+					return
+				}
+				a := vo.Call.Args[0]
+				if mi, isMI := x.Origin(a).(*ssa.MakeInterface); isMI {
+					a = mi.X
+				}
+				if !fromParse(a) {
+					okOn, whyOn = false, "reflect.ValueOf("+x.Describe(a)+")"
+				}
+			case *ssa.Call:
+				name := ""
+				if tt.Call.IsInvoke() {
+					name = tt.Call.Method.Name()
+				} else if cal := tt.Call.StaticCallee(); cal != nil && cal.Pkg != nil && cal.Pkg.Pkg.Path() == pBase {
+					name = cal.Name()
+				}
+				if !strings.HasPrefix(name, "Accept") {
+					return
+				}
+				args := tt.Call.Args
+				if !tt.Call.IsInvoke() && len(args) > 0 {
+					args = args[1:]
+				}
+				if len(args) != 1 {
+					return
+				}
+				nOn++
+				if !fromParse(args[0]) {
+					okOn, whyOn = false, name+"("+x.Describe(args[0])+")"
+				}
+			}
+		})
+		c.Check(rule, t[0]+"#hands-on-the-parsed-value", okOn && nOn >= 1, f.Pos(), "%s must hand on the result of strconv.%s unchanged (%d hand-over(s) found): %s is handed on", t[0], t[1], nOn, orStr(whyOn, "nothing"))
 	}
 	// Constant.Accept*: store reflect.ValueOf(parameter)
 	for _, n := range []string{"AcceptName", "AcceptId", "AcceptDesc", "AcceptSalience", "AcceptInteger", "AcceptString"} {
